@@ -231,6 +231,9 @@ impl Object {
     /// It is up to the caller to ensure the object is actually heap-allocated and points to a valid memory location.
     #[inline]
     unsafe fn get<'a, T>(self) -> &'a T {
+        #[cfg(feature = "verif")]
+        crate::verif::access(self);
+
         &*(self.as_ptr() as *const T)
     }
 
@@ -238,6 +241,9 @@ impl Object {
     /// It is up to the caller to ensure the object is actually heap-allocated and points to a valid memory location.
     #[inline]
     unsafe fn get_mut<'a, T>(self) -> &'a mut T {
+        #[cfg(feature = "verif")]
+        crate::verif::access(self);
+
         &mut *(self.as_ptr() as *mut T)
     }
 
@@ -438,12 +444,25 @@ impl Float {
 
     #[inline]
     unsafe fn destroy(obj: Object) {
+        #[cfg(feature = "verif")]
+        if !crate::verif::pre_destroy(obj) {
+            return;
+        }
+
         drop_in_place(obj.as_ptr() as *mut Self);
+
+        #[cfg(feature = "verif")]
+        if crate::verif::post_destroy(obj) {
+            return;
+        }
+
         dealloc(obj.as_ptr(), Layout::new::<Self>());
     }
 
     fn from_f64(value: f64) -> Object {
         let ptr = Object::with_type(allocate(Layout::new::<Self>()), Type::Float);
+        #[cfg(feature = "verif")]
+        crate::verif::alloc(ptr);
         let obj = unsafe { ptr.get_mut::<Self>() };
         init!(obj.value => value );
         ptr
@@ -456,12 +475,27 @@ struct String {
 
 impl String {
     unsafe fn destroy(ptr: Object) {
+        #[cfg(feature = "verif")]
+        if !crate::verif::pre_destroy(ptr) {
+            return;
+        }
+
         drop_in_place(ptr.as_ptr() as *mut Self);
+
+        #[cfg(feature = "verif")]
+        if crate::verif::post_destroy(ptr) {
+            // keep the box, holding a valid empty value that owns no memory
+            std::ptr::write(ptr.as_ptr() as *mut Self, Self { value: RString::new() });
+            return;
+        }
+
         dealloc(ptr.as_ptr(), Layout::new::<Self>());
     }
 
     fn from_string(value: RString) -> Object {
         let ptr = Object::with_type(allocate(Layout::new::<Self>()), Type::String);
+        #[cfg(feature = "verif")]
+        crate::verif::alloc(ptr);
         let obj = unsafe { ptr.get_mut::<Self>() };
         init!(obj.value => value);
         ptr
@@ -479,12 +513,27 @@ impl Array {
 
     /// Drops and deallocate this NlArray struct and its value
     unsafe fn destroy(ptr: Object) {
+        #[cfg(feature = "verif")]
+        if !crate::verif::pre_destroy(ptr) {
+            return;
+        }
+
         drop_in_place(ptr.as_ptr() as *mut Self);
+
+        #[cfg(feature = "verif")]
+        if crate::verif::post_destroy(ptr) {
+            // keep the box, holding a valid empty value that owns no memory
+            std::ptr::write(ptr.as_ptr() as *mut Self, Self { value: Vec::new() });
+            return;
+        }
+
         dealloc(ptr.as_ptr(), Layout::new::<Self>());
     }
 
     fn from_vec(vec: Vec<Object>) -> Object {
         let ptr = Object::with_type(allocate(Layout::new::<Self>()), Type::Array);
+        #[cfg(feature = "verif")]
+        crate::verif::alloc(ptr);
         let obj = unsafe { ptr.get_mut::<Self>() };
         init!(obj.value => vec);
         ptr
@@ -551,6 +600,18 @@ fn allocate(layout: Layout) -> *mut u8 {
         handle_alloc_error(layout);
     } else {
         ptr
+    }
+}
+
+/// Hands a quarantined (emptied) box back to the allocator, for the verification seams
+#[cfg(feature = "verif")]
+pub(crate) unsafe fn verif_dealloc(ptr: *mut u8, tag: u8) {
+    if tag == Type::Float as u8 {
+        dealloc(ptr, Layout::new::<Float>());
+    } else if tag == Type::String as u8 {
+        dealloc(ptr, Layout::new::<String>());
+    } else if tag == Type::Array as u8 {
+        dealloc(ptr, Layout::new::<Array>());
     }
 }
 
